@@ -7,6 +7,8 @@ V = Path(__file__).resolve().parent.parent
 res = json.loads((V / "seeded" / "RESULTS.json").read_text())
 seeded = {}
 for r in res:
+    if r.get("kind") == "benign":
+        continue
     for pid, c in r.get("checks", {}).items():
         s = seeded.setdefault(pid, [0, 0])
         s[1] += 1
